@@ -203,6 +203,17 @@ func (cs *ContractSet) parseFile(path string) error {
 				return errf("clause outside function")
 			}
 			f := strings.Fields(rest)
+			if kw == "loop" && len(f) == 2 && f[1] == "modular" {
+				// loop N modular: the loop head is a merge point. Every path reaching it proves the invariants; the
+				// body and the code after the loop are verified once, from a state about which only the entry facts
+				// and the invariants are known.
+				n, err := strconv.Atoi(f[0])
+				if err != nil {
+					return errf("bad loop ordinal")
+				}
+				cur.Clauses = append(cur.Clauses, &Clause{Kind: "loopmodular", N: n, Line: l.no})
+				continue
+			}
 			if len(f) < 3 || f[1] != "invariant" {
 				return errf("expected '%s N invariant expr'", kw)
 			}
